@@ -64,6 +64,10 @@ def handle(req):
         return trace_module(shipped(req['name']), req.get('optimize', False))
     if req['cmd'] == 'deser':
         return do_deser(req)
+    if req['cmd'] == 'render':
+        return do_render(req)
+    if req['cmd'] == 'prettybin':
+        return do_prettybin(req)
     raise ValueError(req['cmd'])
 
 
@@ -87,3 +91,84 @@ def do_deser(req):
     return {'out': out, 'events': it._events, 'rebytes': list(sinks[idx].getvalue()),
             'final': {'len': len(it.stack), 'top': tracing.entry(B, it.stack[-1]) if it.stack else {'k': 'none', 'p': {'t': 'ev', 'i': 0}},
                       'memory': [tracing.entry(B, x) for x in it.memory], 'claims': [B.to_json(c.pattern) for c in it.claims]}}
+
+
+# ---------------------------------------------------------------- C19: pretty printing
+def do_render(req):
+    import string
+    import pyharness_notations as PN
+    from proof_generation.pattern import PrettyOptions
+    B = Bridge()
+    allN = PN.all_notations()
+    opts = PrettyOptions(notations={n.definition: n for n in allN.values()})
+    N = allN[req['label']]
+    holes = sorted({int(f) for _, f, _, _ in string.Formatter().parse(N.format_str) if f not in (None, '') and f.isdigit()})
+    apps = []
+    for args in req['argtuples']:
+        pa = [B.to_py(a) for a in args]
+        try:
+            apps.append({'args': args, 'argstrs': [a.pretty(opts) for a in pa], 'out': N(*pa).pretty(opts), 'ok': True})
+        except Exception as e:   # noqa
+            apps.append({'args': args, 'argstrs': [], 'out': type(e).__name__, 'ok': False})
+    return {'label': req['label'], 'arity': N.arity, 'definition': B.to_json(N.definition), 'holes': holes, 'format': N.format_str, 'apps': apps}
+
+
+KW = {'EVar', 'SVar', 'Symbol', 'MetaVar', 'Implies', 'App', 'Exists', 'Mu', 'ESubst', 'SSubst', 'Prop1', 'Prop2', 'Prop3', 'ModusPonens',
+      'Quantifier', 'Generalization', 'Instantiate', 'Pop', 'Save', 'Load', 'Publish'}
+
+
+def split_steps(text):
+    """instruction keyword lines of a .pretty-* file (tokenisation only; trusted)"""
+    import re
+    steps = []
+    for line in text.split('\n'):
+        if not line or line.startswith('\t'):
+            continue
+        w = line.split(' ')[0]
+        m = re.match(r'^(MetaVar) (\d+)(.*)$', line)
+        if m:
+            steps.append({'kw': 'MetaVar', 'ops': [int(m.group(2))], 'raw': line})
+            continue
+        if re.match(r'^(eFresh|sFresh|pos|neg|appctx), len=', line) or (steps and steps[-1]['kw'] == 'MetaVar' and w not in KW):
+            steps[-1]['raw'] += ' | ' + line
+            continue
+        if w not in KW:
+            steps.append({'kw': 'Unknown', 'ops': [], 'raw': line})
+            continue
+        rest = line[len(w):].strip()
+        if w == 'Load':
+            ops = [int(rest.rsplit('=', 1)[1])] if '=' in rest else [-1]
+        elif w in ('ESubst', 'SSubst'):
+            ops = [int(rest.split('=')[1])]
+        elif w == 'Instantiate':
+            ops = [int(x) for x in rest.split(',') if x.strip() != '']
+        elif w in ('EVar', 'SVar', 'Exists', 'Mu', 'Generalization'):
+            ops = [int(rest)]
+        else:
+            ops = []          # Symbol <name>: the name is not a number
+        steps.append({'kw': w, 'ops': ops, 'raw': line})
+    return steps
+
+
+def do_prettybin(req):
+    """serialise the same module in both formats (same optimise setting) through ProofExp.serialize itself"""
+    import tempfile, os
+    from pathlib import Path
+    from proof_generation.proof import OutputFormat
+    import lemmas
+    B = Bridge()
+    out = {'built': False}
+    try:
+        mk = (lambda: shipped(req['name'])) if 'name' in req else (lambda: lemmas.build_module(Bridge(), req['module']))
+        with tempfile.TemporaryDirectory() as d:
+            mk().serialize(Path(d) / 'm', OutputFormat.Binary, req['optimize'])
+            mk().serialize(Path(d) / 'm', OutputFormat.Pretty, req['optimize'])
+            out['phases'] = []
+            for ph in ('gamma', 'claim', 'proof'):
+                bs = list(open(os.path.join(d, f'm.ml-{ph}'), 'rb').read())
+                steps = split_steps(open(os.path.join(d, f'm.pretty-{ph}'), encoding='utf-8').read())
+                out['phases'].append({'phase': ph, 'bytes': bs, 'steps': [{'kw': s['kw'], 'ops': s['ops']} for s in steps]})
+        out['built'] = True
+    except lemmas.EXC as e:
+        out['error'] = type(e).__name__ + ': ' + str(e)[:150]
+    return out
